@@ -114,6 +114,8 @@ class StmtMixin:
       if len(v.items) != n:
         self.raise_('ValueError', VStr('unpack mismatch'))
       return v.items
+    if isinstance(v, VOpaque) and n == 1:
+      return [VOpaque(item_of(v.t, 0))]          # a one-element tuple of outputs
     if isinstance(v, VOpaque) and n == 2:
       # an opaque element that is unpacked into two is a pair (zip / enumerate / (output, input) tuples)
       from .interp import pair_fst, pair_snd
